@@ -160,4 +160,4 @@ Definition check_service (c : case) : Z * Z * Z :=
     | _ => true
     end in
   let '(prop, code) := pick_violation known_codes (run_fails (c_runs c) 0) in
-  (if pre_ok then first_div (c_runs c) 0 else 1, prop, code).
+  prefer_divergence known_codes (if pre_ok then first_div (c_runs c) 0 else 1, prop, code).
